@@ -952,6 +952,11 @@ fn c07_base(family: &'static str, ch: &mut Choices, small: bool) -> Plan {
         // the Stop notification takes (simulated) time: timers fire while it is being handled
         plan.p_hold_ctl = 700;
     }
+    if ch.chance(1, 4) {
+        // the application's services take time to shut down: the connection is still being torn down while
+        // handlers complete and timers fire
+        plan.cfg.svc_slow_shutdown = true;
+    }
     if !role.is_server() && ch.chance(1, 3) {
         // a client with its own keep-alive task running next to the dispatcher
         plan.cfg.client_keepalive_s = 1 + ch.choose(2) as u16;
@@ -1031,7 +1036,11 @@ fn gen_c07(ch: &mut Choices) -> Plan {
     let v5 = ver == Ver::V5;
     // -- the termination cause
     let span = 20 + 15 * (plan.peer.script.len() as u32 + plan.senders.len() as u32);
-    match ch.choose(10) {
+    match ch.choose(11) {
+        10 => {
+            // the publish service's readiness check starts to fail (an application error, like a failing handler)
+            plan.cfg.svc_ready_fail_after = Some(1 + ch.choose(3));
+        }
         0 => plan.faults.fin_at_step = Some(1 + u64::from(ch.choose(span))),
         1 => plan.faults.rst_at_step = Some(1 + u64::from(ch.choose(span))),
         2 => plan.faults.wr_err_at_step = Some(1 + u64::from(ch.choose(span))),
@@ -1167,6 +1176,9 @@ fn gen_c15(ch: &mut Choices) -> Plan {
     plan.cfg.use_router = false;
     plan.cfg.ctl_gated = ch.chance(1, 2);
     plan.w_ctl = *ch.pick(&[[1u32, 0, 0], [1, 1, 0], [2, 1, 1]]);
+    // the application's services may take time to shut down: whatever completes meanwhile must not be written
+    // behind the endpoint's own DISCONNECT
+    plan.cfg.svc_slow_shutdown = ch.chance(1, 3);
     plan.p_immediate = *ch.pick(&[0u32, 500, 1000]);
     plan.cfg.max_topic_alias = 4;
     plan.cfg.min_chunk = *ch.pick(&[32 * 1024u32, 0, 16]);
@@ -1402,6 +1414,10 @@ fn gen_c17(ch: &mut Choices) -> Plan {
         plan.conns = 2;
     } else {
         plan.cfg.client_topic_alias_max = max_alias;
+        // what the broker announces for ITS direction is independent of what the client accepts
+        if ch.chance(1, 2) {
+            plan.peer.connack_props.push((34, PropVal::U16(ch.choose(6) as u16)));
+        }
     }
     plan.tags.push(format!("max-alias:{max_alias}"));
     let refusable = plan.w_outcome[1] > 0;
@@ -1790,7 +1806,18 @@ fn gen_c19(ch: &mut Choices) -> Plan {
                 } else {
                     [m, m + 1]
                 };
+                // the probe beyond the limit is, half of the time, not a PUBLISH: a SUBSCRIBE whose filter is
+                // padded so that its Remaining Length is exactly limit + 1
+                let sub_beyond = m != 0 && ch.chance(1, 2);
                 for (i, target) in targets.iter().enumerate() {
+                    if sub_beyond && i == 1 {
+                        let mk = |pad: usize| rc::Subscribe { pid: 77, props: Vec::new(), filters: vec![(format!("t/61/{}", "z".repeat(pad)), 0)] };
+                        let base = rc::encode(ver, &Pkt::Subscribe(mk(0)));
+                        let rem0 = rc::fixed_header(&base).ok().flatten().map_or(0, |h| h.1);
+                        let sub = mk((*target as usize).saturating_sub(rem0));
+                        plan.peer.script.push(step(Pkt::Subscribe(sub), ver, Pre::Connected));
+                        continue;
+                    }
                     // payload sized so that the frame's Remaining Length is exactly `target`
                     let mut p = mk_publish(ver, ch, 60 + i as u32, 0, None, 0);
                     p.props.clear();
